@@ -75,7 +75,12 @@ def correspondence(ctx):
         for k in st:
             eq[k] = eq.get(k, 0) + st[k]
         dis += d
-    return {"interval_sequences": tot, "element_condition_programs": len(texts), "equations": eq,
+    # transformers/term.py: the real TermTransformer vs `addTime`; symbols inside theory atoms vs `symTerm` / create_symbol
+    import term_check
+    tst, tdis = term_check.run(ctx.seed * 163 + 5, 150 if ctx.tier == "quick" else 2000, MODEL)
+    sst, sdis = term_check.run_symbols(ctx.seed * 167 + 7, 150 if ctx.tier == "quick" else 1500, MODEL)
+    dis += tdis + sdis
+    return {"interval_sequences": tot, "element_condition_programs": len(texts), "equations": eq, "terms": tst, "symbols": sst,
             "sample": {"program": texts[0]}}, dis
 
 # ---- schema vs instantiation
